@@ -166,6 +166,8 @@ fn defaults<const P: usize, const OPT: bool>() {
     std::mem::forget(def);
 }
 
+// NOT REGISTERED (defaults_p1, defaults_p2): no result in 500 s, with or without the two contract stubs; the
+// default-chaining clause is carried by simple_function_compile__two_optionals_one_supplied below.
 #[kani::proof]
 #[kani::stub(std::mem::drop, crate::lhs_types::verif_kani::common::mem_drop__releases_nothing_observable)]
 #[kani::stub(<crate::types::LhsValue as std::clone::Clone>::clone, lhs_value_clone__contract_scalar)]
